@@ -412,6 +412,14 @@ func TestVxC05Unmarshal(t *testing.T) {
 				if merr == nil && len(ip) != 0 && len(out) != 4 && len(out) != 16 {
 					return fmt.Errorf("Marshal(inet, net.IP %x of %d bytes) = %x without an error", []byte(ip), len(ip), out)
 				}
+				// no address - nil or empty, Go code does not tell the two apart - is null
+				for _, none := range []net.IP{nil, {}, ip[:0]} {
+					o, e := Marshal(info, none)
+					if e != nil || o != nil {
+						return fmt.Errorf("Marshal(inet, net.IP of no bytes (nil: %v)) = %x, %v; want null without an error", none == nil, o, e)
+					}
+				}
+				k.Class("inet from a net.IP of any length")
 			}
 			for _, tt := range targets {
 				var pan interface{}
